@@ -545,10 +545,11 @@ def possible_values(fa, expr, at, _depth=0):
                 out += possible_values(fa, d.value, d.node, _depth + 1)
             elif d.kind == "for" and isinstance(d.stmt, (ast.For, ast.AsyncFor)):
                 it = d.stmt.iter
-                if isinstance(it, ast.Name):
-                    ds = fa.df.reaching(d.node, it.id)
-                    if len(ds) == 1 and ds[0].kind == "assign" and ds[0].value is not None:
-                        it = ds[0].value
+                for _ in range(4):  # the iterable may be bound to a local, a module-level or a class-level name
+                    b = _bound_value(fa, it, d.node)
+                    if b is None:
+                        break
+                    it = b
                 items = None
                 if isinstance(it, (ast.Tuple, ast.List)):
                     items = list(it.elts)
@@ -593,18 +594,54 @@ MAY_RAISE = {
 }
 
 
-def _literal_seq(fa, it, at):
-    """Elements of a literal tuple / list / set (possibly bound to a local or a module-level name), else None."""
-    if isinstance(it, ast.Name):
-        if fa.df.is_local(it.id):
-            ds = fa.df.reaching(at, it.id)
+def _bound_value(fa, e, at):
+    """The expression a name stands for, when that is evident: a local with one reaching plain assignment, a module-level
+    name of this module or of the repository module it is imported from, a class-level constant read as `self.X` / `cls.X` /
+    `Class.X` in a method of that class (and never assigned through an instance).  None otherwise."""
+    if isinstance(e, ast.Name):
+        if fa.df.is_local(e.id):
+            ds = fa.df.reaching(at, e.id)
             if len(ds) == 1 and ds[0].kind == "assign" and ds[0].value is not None:
-                return _literal_seq(fa, ds[0].value, ds[0].node)
+                return ds[0].value
             return None
-        v = fa.fi.module.assigns.get(it.id)
-        return _literal_seq(fa, v, at) if v is not None else None
+        mod = fa.fi.module
+        if e.id in mod.assigns:
+            return mod.assigns[e.id]
+        origin = mod.imports.get(e.id)
+        if origin and ":" in origin:
+            m_, n_ = origin.split(":", 1)
+            other = fa.ck.repo.modules.get(m_.lstrip(".").split(".")[-1])
+            if other is not None and n_ in other.assigns:
+                return other.assigns[n_]
+        return None
+    if isinstance(e, ast.Attribute) and isinstance(e.value, ast.Name):
+        k = fa.fi.cls
+        while k is not None:
+            if e.value.id in ("self", "cls", k.name):
+                for st in k.node.body:
+                    for (tg, v) in ([(t, st.value) for t in st.targets] if isinstance(st, ast.Assign) else
+                                    [(st.target, st.value)] if isinstance(st, ast.AnnAssign) and st.value is not None else []):
+                        if isinstance(tg, ast.Name) and tg.id == e.attr:
+                            stores = [n for m in k.methods.values() for n in ast.walk(m.node)
+                                      if isinstance(n, ast.Attribute) and n.attr == e.attr and isinstance(n.ctx, (ast.Store, ast.Del))]
+                            return None if stores else v
+            k = getattr(k, "outer", None)
+    return None
+
+
+def _literal_seq(fa, it, at, _depth=0):
+    """Elements of a literal tuple / list / set (possibly bound to a local, module-level or class-level name), else None."""
     if isinstance(it, (ast.Tuple, ast.List, ast.Set)):
         return list(it.elts)
+    if _depth > 4:
+        return None
+    if isinstance(it, ast.Call) and A.call_dotted(it) in ("tuple", "list", "sorted", "frozenset", "set") and len(it.args) == 1 and not it.keywords:
+        return _literal_seq(fa, it.args[0], at, _depth + 1)
+    v = _bound_value(fa, it, at)
+    if v is not None:
+        if isinstance(it, ast.Name) and fa.df.is_local(it.id):
+            at = fa.df.reaching(at, it.id)[0].node
+        return _literal_seq(fa, v, at, _depth + 1)
     return None
 
 
@@ -639,14 +676,11 @@ def table_entries(fa, expr, at, _depth=0):
     if isinstance(expr, ast.BinOp) and isinstance(expr.op, ast.BitOr):
         l, r = table_entries(fa, expr.left, at, _depth + 1), table_entries(fa, expr.right, at, _depth + 1)
         return None if l is None or r is None else l + r
-    if isinstance(expr, ast.Name):
-        if fa.df.is_local(expr.id):
-            ds = [d for d in fa.df.reaching(at, expr.id)]
-            if len(ds) == 1 and ds[0].kind == "assign" and ds[0].value is not None:
-                return table_entries(fa, ds[0].value, ds[0].node, _depth + 1)
-            return None
-        v = fa.fi.module.assigns.get(expr.id)
-        return table_entries(fa, v, at, _depth + 1) if v is not None else None
+    v = _bound_value(fa, expr, at)
+    if v is not None:
+        if isinstance(expr, ast.Name) and fa.df.is_local(expr.id):
+            at = fa.df.reaching(at, expr.id)[0].node
+        return table_entries(fa, v, at, _depth + 1)
     return None
 
 
@@ -731,14 +765,57 @@ def check_order(ck, R):
     ck.need(n >= 4, "dispatch-order rule found only %d comparable pairs" % n)
 
 
+def classifies_exception(ck):
+    """Does ResultType.from_object answer ResultType.exception for every MementoException?  Decided on the path classes of
+    from_object, whatever its shape (early returns, elif chain assigning a result variable, ...): every way out (return or
+    raise) has first tested `isinstance(<obj>, MementoException)`; the ways out on which the test held return
+    ResultType.exception; no raise lies on them."""
+    memo = ck.__dict__.setdefault("_c02_classifies_exception", {})
+    if "v" in memo:
+        return memo["v"]
+    memo["v"] = False
+    fo = ck.repo.try_func("metadata.ResultType.from_object")
+    if fo is None or not fo.params:
+        return False
+    obj = fo.params[0] if fo.is_static else (fo.params + [None])[1]
+
+    def is_me(e):
+        it = A.isinstance_types(e)
+        return bool(it) and it[0] == obj and any(t.split(".")[-1] == "MementoException" for t in it[1])
+
+    def polarity(lits):
+        return {p for (tx, p) in lits if not tx.startswith("@") and is_me(_parse(tx))}
+
+    try:
+        fa = FA(ck, fo)
+        S = Sym(fa, watch=lambda tx, e: is_me(e))
+        rets = S.return_states()
+        ok = bool(rets)
+        seen = False
+        for (_r, _env, lits, v) in rets:
+            pol = polarity(lits)
+            if not pol:
+                ok = False
+            if True in pol:
+                seen = True
+                ok = ok and v == "ResultType.exception"
+        for r in fa.stmts(ast.Raise):
+            for (_env, lits) in S.at(r):
+                pol = polarity(lits)
+                if not pol or True in pol:
+                    ok = False
+        memo["v"] = bool(ok and seen)
+    except AnalysisError:
+        memo["v"] = False
+    return memo["v"]
+
+
 def _runner_sym(ck, fa, **kw):
     """Symbolic view with the facts the runner rules share: ExistingMementoResult is a named tuple that
     process_existing_memento returns; a constructed object's class decides isinstance tests on it; classifying a
     MementoException yields ResultType.exception (checked on from_object's first rung)."""
     tuples = {"ExistingMementoResult": namedtuple_fields(ck, "runner", "ExistingMementoResult")}
-    fo = ck.repo.try_func("metadata.ResultType.from_object")
-    lad = extract_ladder(fo.node) if fo is not None else []
-    exc_first = bool(lad) and lad[0][0] == ["MementoException"] and lad[0][1] == "return ResultType.exception"
+    exc_first = classifies_exception(ck)
 
     def rewrite(n):
         if exc_first and isinstance(n, ast.Call) and A.call_dotted(n) == "ResultType.from_object" and len(n.args) == 1 and not n.keywords:
@@ -1143,6 +1220,229 @@ def check_frame_rule(ck, R):
                   "cannot serve its keys any more" % (attr, cls.name), fa.where(st))
 
 
+# ---------------------------------------------------------------------------------------------
+# R10: forgetting reaches every place that can still answer "memoized"
+#
+# "Forgetting a call makes exactly that call run again" needs, at every layer that can answer a
+# look-up on its own, that a forget which returns normally has left nothing behind for the key:
+#   * the memory cache answers `is_memoized` / `read_result` / `get_mementos` from its keyed slots (the
+#     resident map, the weak references, any index a later change adds).  The slots are found by what
+#     the query methods do (membership test, keyed read), not by name.  On EVERY normal path through
+#     `forget_call`, and for EVERY such slot, the key of the forgotten call is removed (pop / del /
+#     discard / clear, possibly inside a helper, decided through the helper's own paths) or the path
+#     has itself established that the slot does not hold the key (`k not in self.<slot>`).  A stale
+#     slot is not a performance matter: the runner stores a new result only when `is_memoized` says
+#     no, so a survivor makes the forgotten call run its body on every later call (or serves the
+#     forgotten value);
+#   * the storage backend answers `is_memoized` from the sources it consults there (memory cache, then
+#     the metadata source): each of them receives the forget on every normal path, the only excuse
+#     being the branch on which that source is not configured.
+# ---------------------------------------------------------------------------------------------
+CACHE_QUERIES = ("is_memoized", "read_result", "get_mementos")
+_KEYED_VIEWS = ("keys", "values", "items")
+_REMOVERS = ("pop", "discard", "remove", "__delitem__")
+_FRESH_CONTAINERS = ("dict", "OrderedDict", "WeakValueDictionary", "WeakKeyDictionary", "defaultdict", "set", "list", "deque")
+
+
+def _slot_expr(e, me):
+    """`self.S` (also seen through `.keys()` / `.values()` / `.items()`) -> 'S'."""
+    if isinstance(e, ast.Call) and not e.args and not e.keywords and isinstance(e.func, ast.Attribute) and e.func.attr in _KEYED_VIEWS:
+        e = e.func.value
+    if isinstance(e, ast.Attribute) and isinstance(e.value, ast.Name) and e.value.id == me:
+        return e.attr
+    return None
+
+
+def _own_method(repo, cls, call, me):
+    """The method of `cls` that `self.m(...)` / `Cls.m(...)` / `cls.m(...)` designates, with the offset of its first explicit
+    parameter, else (None, 0)."""
+    f = call.func
+    if not (isinstance(f, ast.Attribute) and isinstance(f.value, ast.Name)):
+        return None, 0
+    if f.value.id not in (me, "cls", cls.name):
+        return None, 0
+    m = repo.find_method(cls, f.attr)
+    if m is None:
+        return None, 0
+    return m, (0 if m.is_static else 1)
+
+
+def answering_slots(ck, cls):
+    """{slot: (query method, node)}: the fields of `cls` from which its query methods answer by key -- a membership test
+    on the field, a keyed read of it, `.get(k)` on it -- in the query methods themselves and the methods they call on self."""
+    out = {}
+    seen = set()
+
+    def scan(m, origin, depth):
+        if m is None or m.qual in seen or depth > 3 or not m.params:
+            return
+        seen.add(m.qual)
+        me = m.params[0] if not m.is_static else "self"
+        for n in A.walk_body(m.node):
+            s = None
+            if isinstance(n, ast.Compare) and len(n.ops) == 1 and isinstance(n.ops[0], (ast.In, ast.NotIn)):
+                s = _slot_expr(n.comparators[0], me)
+            elif isinstance(n, ast.Subscript) and isinstance(n.ctx, ast.Load):
+                s = _slot_expr(n.value, me)
+            elif isinstance(n, ast.Call) and A.call_attr(n) in ("get", "__getitem__", "__contains__") and n.args and A.call_recv(n) is not None:
+                s = _slot_expr(A.call_recv(n), me)
+            if s is not None:
+                out.setdefault(s, (origin, n))
+            if isinstance(n, ast.Call):
+                callee, _off = _own_method(ck.repo, cls, n, me)
+                if callee is not None and callee.name not in CACHE_QUERIES:
+                    scan(callee, origin, depth + 1)
+
+    for q in CACHE_QUERIES:
+        scan(cls.methods.get(q), q, 0)
+    return out
+
+
+class _Absent:
+    """Decides "every normal path through <method> leaves <slot> without the key", the key being whatever is derived from a
+    designated parameter.  Events that establish it: a removal of the key from the slot, a call of a method of the class that
+    (by the same analysis of its own paths) establishes it for the argument, a branch edge that implies `key not in slot`."""
+
+    def __init__(self, ck, cls):
+        self.ck = ck
+        self.cls = cls
+        self.memo = {}
+
+    def decide(self, m, slot, pname, keyless=False, depth=0):
+        """-> (ok, fa, witness path or None).  keyless: the whole slot must be emptied (forget everything)."""
+        k = (m.qual, slot, pname, keyless)
+        if k in self.memo:
+            return self.memo[k]
+        self.memo[k] = (False, None, None)  # a recursive helper establishes nothing by itself
+        fa = FA(self.ck, m)
+        me = m.params[0] if (m.params and not m.is_static) else "self"
+        cfg = fa.cfg
+
+        def key_ok(e):
+            if keyless or pname is None:
+                return False
+            try:
+                return ("param:" + pname) in fa.deps(e)
+            except AnalysisError:
+                return False
+
+        events = []
+        absent = set()
+        for n in A.walk_body(m.node):
+            if isinstance(n, ast.Call):
+                recv = A.call_recv(n)
+                nm = A.call_attr(n)
+                if recv is not None and _slot_expr(recv, me) == slot and isinstance(recv, ast.Attribute):
+                    if nm == "clear" and fa.unconditional(n):
+                        events += fa.nodes(n)
+                    elif nm in _REMOVERS and n.args and key_ok(n.args[0]) and fa.unconditional(n):
+                        events += fa.nodes(n)
+                    elif nm == "get" and n.args and key_ok(n.args[0]) and fa.nodes(n):
+                        # `self.S.get(k) is None` taken true: nothing is held for k
+                        nid = fa.nodes(n)[0]
+                        absent.add((fa._literal(ast.Compare(left=n, ops=[ast.Is()], comparators=[ast.Constant(value=None)]), nid, True)[0], True))
+                elif depth < 3 and fa.unconditional(n):
+                    callee, off = _own_method(self.ck.repo, self.cls, n, me)
+                    if callee is not None and callee.qual != m.qual:
+                        if keyless:
+                            if self.decide(callee, slot, None, True, depth + 1)[0]:
+                                events += fa.nodes(n)
+                        else:
+                            for i, a in enumerate(n.args):
+                                if isinstance(a, ast.Starred) or not key_ok(a) or i + off >= len(callee.params):
+                                    continue
+                                if self.decide(callee, slot, callee.params[i + off], False, depth + 1)[0]:
+                                    events += fa.nodes(n)
+                                    break
+            elif isinstance(n, ast.Delete):
+                for t in n.targets:
+                    if isinstance(t, ast.Subscript) and _slot_expr(t.value, me) == slot and key_ok(t.slice):
+                        events += fa.nodes(n)
+            elif isinstance(n, (ast.Assign, ast.AnnAssign)) and getattr(n, "value", None) is not None:
+                tg = n.targets if isinstance(n, ast.Assign) else [n.target]
+                v = n.value
+                fresh = (isinstance(v, (ast.Dict, ast.List, ast.Set)) and not (getattr(v, "keys", None) or getattr(v, "elts", None))) or \
+                    (isinstance(v, ast.Call) and not v.args and not v.keywords and (A.call_attr(v) in _FRESH_CONTAINERS))
+                if fresh and any(_slot_expr(t, me) == slot and isinstance(t, ast.Attribute) for t in tg):
+                    events += fa.nodes(n)
+            elif isinstance(n, ast.Compare) and len(n.ops) == 1 and isinstance(n.ops[0], (ast.In, ast.NotIn)) \
+                    and _slot_expr(n.comparators[0], me) == slot and key_ok(n.left) and fa.nodes(n):
+                nid = fa.nodes(n)[0]
+                view = ast.Compare(left=n.left, ops=[ast.In()], comparators=[ast.Attribute(value=ast.Name(id=me, ctx=ast.Load()), attr=slot, ctx=ast.Load())])
+                absent.add((fa._literal(n, nid, True)[0], False))
+                absent.add((fa._literal(view, nid, True)[0], False))
+        from .cache_model import branch_filter
+        edge_ok = branch_filter(fa, lambda txt, pol: (txt, pol) in absent)
+        ok = cfg.must_pass(events, cfg.exit, edge_ok=edge_ok)
+        wit = None if ok else cfg.path(cfg.entry, cfg.exit, removed=events, edge_ok=edge_ok)
+        self.memo[k] = (ok, fa, wit)
+        return self.memo[k]
+
+
+def check_forget_reaches_answers(ck, R):
+    ck.rule(R, "forgetting reaches every place that can still answer 'memoized': on every normal path the cache's forget_call / "
+               "forget_everything leave none of the slots its queries answer from holding the key, and the backend's forget "
+               "operations are delivered to every source its is_memoized consults", 6)
+    from .cache_model import CACHE_CLASS, unalias_fixed_attrs, branch_filter
+    cls = ck.repo.cls(CACHE_CLASS)
+    unalias_fixed_attrs(ck.repo, cls)
+    slots = answering_slots(ck, cls)
+    ck.need(slots, "MemoryCache: no field found from which is_memoized / read_result / get_mementos answer")
+    dec = _Absent(ck, cls)
+    for (name, keyless) in (("forget_call", False), ("forget_everything", True)):
+        m = cls.methods.get(name)
+        ck.need(m is not None, "MemoryCache.%s not found" % name)
+        explicit = [p_ for p_ in m.params[(0 if m.is_static else 1):]]
+        ck.need(keyless or explicit, "MemoryCache.%s takes no call argument" % name)
+        for slot in sorted(slots):
+            (ok, fa, wit) = dec.decide(m, slot, None if keyless else explicit[0], keyless)
+            origin = slots[slot][0]
+            ck.ob(R, fa.key(None, "leaves-nothing-in:" + slot), ok,
+                  "%s leaves no entry for the %s in self.%s (from which %s answers) on every path" % (name, "store" if keyless else "call", slot, origin) if ok else
+                  "%s can return (path %s) while self.%s still holds %s, and %s answers from self.%s: after forgetting, the cache still reports the "
+                  "call as memoized (the re-computed result is then never stored and the body runs on every later call) or serves the forgotten value"
+                  % (name, fa.cfg.describe_path(wit) if wit else "?", slot, "entries" if keyless else "the key of the forgotten call", origin, slot), fa.where())
+    # the backend: every source is_memoized consults is told to forget
+    bq = "storage_base.StorageBackendBase"
+    bcls = ck.repo.cls(bq)
+    im = FA(ck, bq + ".is_memoized")
+    me = (im.fi.params or ["self"])[0]
+    sources = []
+    for c in im.calls():
+        r = A.call_recv(c)
+        if isinstance(r, ast.Attribute) and isinstance(r.value, ast.Name) and r.value.id == me and r.attr not in sources:
+            sources.append(r.attr)
+    ck.need(sources, "StorageBackendBase.is_memoized consults no field of the backend")
+    for name in ("forget_call", "forget_function", "forget_everything"):
+        fm = bcls.methods.get(name)
+        ck.need(fm is not None, "StorageBackendBase.%s not found" % name)
+        fa = FA(ck, fm)
+        sme = (fm.params or ["self"])[0]
+        explicit = fm.params[1:]
+        for src in sources:
+            src_txt = "%s.%s" % (sme, src)
+            events = []
+            for c in fa.calls(name):
+                r = A.call_recv(c)
+                if r is None or fa.xnorm(r) != src_txt or not fa.unconditional(c):
+                    continue
+                if explicit:
+                    try:
+                        if not (c.args and ("param:" + explicit[0]) in fa.deps(c.args[0])):
+                            continue
+                    except AnalysisError:
+                        continue
+                events += fa.nodes(c)
+            unset = {(src_txt, False), ("%s is None" % src_txt, True)}
+            edge_ok = branch_filter(fa, lambda txt, pol: (txt, pol) in unset)
+            ok = bool(events) and fa.cfg.must_pass(events, fa.cfg.exit, edge_ok=edge_ok)
+            wit = None if ok else fa.cfg.path(fa.cfg.entry, fa.cfg.exit, removed=events, edge_ok=edge_ok)
+            ck.ob(R, fa.key(None, "delivered-to:" + src), ok,
+                  "%s is delivered to %s (consulted by is_memoized) on every path on which it is configured" % (name, src_txt) if ok else
+                  "%s can return (path %s) without telling %s to forget, yet is_memoized consults it: the forgotten call is still reported "
+                  "as memoized / served from there" % (name, fa.cfg.describe_path(wit) if wit else "?", src_txt), fa.where())
+
+
 def check(ck):
     from .memo import check_new_memo_tables
     ck.run(check_new_memo_tables, ck, "C02.M1", ('runner_local', 'runner', 'storage_base', 'storage_filesystem', 'exception', 'base', 'metadata'))
@@ -1165,3 +1465,4 @@ def check(ck):
     from .c09 import check_mutex_table_stable
     ck.rule("C02.R9", "the per-invocation mutex table never drops a mutex", 1)
     ck.run(check_mutex_table_stable, ck, "C02.R9")
+    ck.run(check_forget_reaches_answers, ck, "C02.R10")
